@@ -1523,6 +1523,17 @@ func (ts *TSModel) checkBMCOnce(opt BMCOptions) (*BMCResult, error) {
 			// the state after the last step is quiescent: say so for the replayer
 			if model[qK.Name] == 1 && (len(r.Schedule) == 0 || r.Schedule[len(r.Schedule)-1] >= 0) {
 				r.Schedule = append(r.Schedule, -1)
+			} else if model[qK.Name] == 1 && r.Schedule[len(r.Schedule)-1] == -2 {
+				// the prefix was halted in a state that happens to be quiescent (the
+				// state is frozen after HALT, so the state at K is the state at the
+				// first HALT): tell the replayer to verify quiescence and evaluate
+				// the final properties there
+				for i, s := range r.Schedule {
+					if s == -2 {
+						r.Schedule[i] = -1
+						break
+					}
+				}
 			}
 		}()
 		for i := 0; i < K; i++ {
